@@ -15,13 +15,16 @@ pub fn run(check: &str, args: &Args, scratch: &Path) -> ShardReport {
     match check {
         "sim" => run_sim(args, scratch),
         "simone" => run_sim_one(args, scratch),
-        "c37" | "c35" | "c13" => run_directed(check, args, scratch),
+        "c37" | "c35" | "c13" | "c36" | "c17" => run_directed(check, args, scratch),
         "config" => crate::comp::config::run(args, scratch),
         "kv" => crate::comp::kv::run(args, scratch),
         "buflog" => crate::comp::buflog::run(args, scratch),
         "storage" => crate::comp::storage::run(args, scratch),
         "smcrash" => crate::comp::smcrash::run(args, scratch),
         "replconv" => crate::comp::replconv::run(args, scratch),
+        "metacrash" => crate::comp::metacrash::run(args, scratch),
+        "scanrace" => crate::comp::scanrace::run(args, scratch),
+        "ttl" => crate::comp::ttl::run(args, scratch),
         other => {
             let mut r = ShardReport::new(other);
             r.inconclusive.push(format!("unknown check {other}"));
@@ -74,7 +77,7 @@ fn run_sim(args: &Args, scratch: &Path) -> ShardReport {
                 rep.violation(
                     f.property,
                     &f.signature,
-                    json!({"t": f.t, "detail": f.detail, "trace": if rep.violations.iter().filter(|v| v.property == f.property && v.signature == f.signature).count() == 0 { json!(out.trace_around(f.t, 2500, 900)) } else { json!([]) }}),
+                    json!({"t": f.t, "detail": f.detail, "trace": if rep.violations.iter().filter(|v| v.property == f.property && v.signature == f.signature).count() == 0 { json!(out.trace_around(f.t, 2500, std::env::var("DVERIF_TRACE_MAX").ok().and_then(|v| v.parse().ok()).unwrap_or(900))) } else { json!([]) }}),
                     plan.describe(),
                 );
             } else {
@@ -136,6 +139,8 @@ pub fn run_directed(which: &str, args: &Args, scratch: &Path) -> ShardReport {
     match which {
         "c37" => crate::sim::directed::run_c37(s, runs, scratch, &mut rep),
         "c35" => crate::sim::directed::run_c35(s, runs, scratch, &mut rep),
+        "c17" => crate::sim::snapxfer::run_c17(s, runs, scratch, &mut rep, args.u64("budget_s", 600)),
+        "c36" => crate::sim::merge::run_c36(s, runs, scratch, &mut rep, args.u64("budget_s", 600)),
         "c13" => {
             // 6 configurations; shard i runs configuration (i % 6) + 1
             crate::sim::directed::run_c13(s, scratch, &mut rep, Some(shard % 6 + 1));
